@@ -1272,6 +1272,8 @@ theorem setVdims_ok {f g : Fld} {v : Option (List String)} (h : setVdims f v = .
         exact ⟨rfl, rfl, rfl, rfl, rfl, hnew⟩
     · injection h with h; subst h
       exact ⟨rfl, rfl, rfl, rfl, rfl, hnew⟩
+    · injection h with h; subst h
+      exact ⟨rfl, rfl, rfl, rfl, rfl, hnew⟩
 
 /-- with labels present, an accepted explicit mapping is stored as given -/
 theorem vmapSet_some_some {mesh : Mesh} {n : Nat} {vs : List String} {mp x : List (String × String)}
